@@ -255,6 +255,11 @@ nni_dialer_init(nni_dialer *d, nni_sock *s, nni_sp_tran *tran)
 		nni_mtx_lock(&dialers_lk);
 		rv = nni_id_alloc32(&dialers, &d->d_id, d);
 		nni_mtx_unlock(&dialers_lk);
+		if (rv != 0) {
+			// We have joined the socket already; undo that, as
+			// the caller is going to discard us.
+			nni_sock_remove_dialer(d);
+		}
 	}
 
 	if (rv == 0) {
